@@ -2326,6 +2326,10 @@ impl<'de, 'e> de::Deserializer<'de> for YamlDeserializer<'de, 'e> {
                             return Ok(None);
                         }
                         Some(_) => {
+                            // Where this key is written in the mapping being read: for an
+                            // aliased key (`*k: v`) that is the alias token, while the captured
+                            // node carries the location of the anchored key it replays.
+                            let key_use_location = self.ev.reference_location();
                             let mut key_node = capture_node(self.ev)?;
                             if is_merge_key(&key_node) {
                                 // Preserve where the merge value is *referenced* (use-site).
@@ -2347,7 +2351,7 @@ impl<'de, 'e> de::Deserializer<'de> for YamlDeserializer<'de, 'e> {
                             match self.cfg.dup_policy {
                                 DuplicateKeyPolicy::Error => {
                                     if is_duplicate {
-                                        let location = key_node.location();
+                                        let location = key_use_location;
                                         let key = key_node
                                             .fingerprint()
                                             .stringy_scalar_value()
